@@ -138,22 +138,23 @@ CHECKS = {
 
 # what the seeded rounds 4-7 added to each check (DESIGN.md section 12); appended to the level text
 ADDENDA = {
-    "C01": " Also: two-step flows with the first step applied in place on the caller's own tree after find_nodes(); a sample of the sessions repeated in a child interpreter started with -O; trees whose nodes share ids; exponents of any size judged through exponent arithmetic modulo p-1; results handed out earlier re-inspected after later calls.",
+    "C01": " Also: two-step flows with the first step applied in place on the caller's own tree after find_nodes(); a sample of the sessions repeated in a child interpreter started with -O; trees whose nodes share ids; exponents of any size judged through exponent arithmetic modulo p-1; results handed out earlier re-inspected after later calls. Steps taken in place on the caller's own tree: after every rule object has been asked about an ancestor of the target and the first step has re-linked the nodes below it, each rule object that accepts the very same ancestor object is applied to it without another question (inplace-ancestor), and second steps with both steps in place (inplace-both); a result that is not a proper tree (one node object under two parents) is unfolded and must keep the value when rewritten further (SharedSourceVerdict).",
     "C02": " Also: equations whose first fold leaves numpy scalars, shared-id equations, second steps with the same rule objects, the -O child, earlier results re-inspected after later calls.",
     "C03": " Also: every text twice on one parser and once on a long-lived parser that has seen look-alikes, process-history noise between observations, CR LF pairs, control characters, texts with 60..170 function calls, integer literals around CPython's 4300-digit limit (known finding).",
     "C04": " Also: Printer.tla (implementation-shaped printer model, MC_Printer round-trips it through the reference grammar); printed text is re-parsed by a long-lived parser that has seen look-alikes; read-only calls and unrelated failing API calls precede printing; big-count texts printed after one distributive step.",
     "C05": " Also: the sign view NonNeg (signed zeros, sign of infinities) and the type view IntTyped (factorials of hundreds of thousands stay integers) of EvalBig.tla; assignments handed over as dict subclasses (OrderedDict, defaultdict) and required to be unchanged; integers of up to 5001 digits; an exact rational view for equations between non-integer sides. The IEEE special-value view ExtVal (binary-exponent intervals, exact at the leaves): overflowing products / quotients / sums give the signed infinity, inf - inf, inf * 0, inf / inf and anything / 0 give NaN, finite / inf a zero, and what stays inside the range stays finite (1,400 cases over operands up to 1.5e308).",
     "C06": " Also: used vs brand-new vs process-long rule objects, answers recorded earlier in the process for fixed trees, rule objects constructed in the opposite order, searches started at inner nodes, a second round of asking and applying on rewrite results (nan / inf / huge coefficients).",
-    "C07": " Also: the rule must be handed the counterpart of the node that was asked about (worked_on_another_node); shared-id trees; in-place first steps; earlier results re-inspected after later calls.",
-    "C08": " Also: each instance asked again with float-typed whole exponents, with variable names that are equal but not identical strings, with both rule-construction call forms, and refused instances again with the two variables differing by case only. Mixed-operator chains (5 + (3x + y), 5 * ((3 + x) * y)) are documented non-applicable forms of constant arithmetic.",
-    "C09": " Also: sessions mixing clone-per-step with in-place steps after find_nodes(), read-only calls after every step, integers of a thousand bits; TLC-generated model sessions (MC_RulesImpl_scripts) replayed into the real rules.",
+    "C07": " Also: the rule must be handed the counterpart of the node that was asked about (worked_on_another_node); shared-id trees; in-place first steps; earlier results re-inspected after later calls. In-place steps on an ancestor every rule object was asked about before the nodes below it were re-linked; the node a change names as its result must not be left under the old root when the root was rewritten (wf_result_of_root_rewrite_has_a_parent).",
+    "C08": " Also: each instance asked again with float-typed whole exponents, with variable names that are equal but not identical strings, with both rule-construction call forms, and refused instances again with the two variables differing by case only. Mixed-operator chains (5 + (3x + y), 5 * ((3 + x) * y)) are documented non-applicable forms of constant arithmetic. Every instance is also reached by an in-place edit of a tree the long-lived rule object was asked about just before (operands exchanged, asked, put back, asked and applied in place).",
+    "C09": " Also: sessions mixing clone-per-step with in-place steps after find_nodes(), read-only calls after every step, integers of a thousand bits; TLC-generated model sessions (MC_RulesImpl_scripts) replayed into the real rules. Seeds with nested mixed-operator sums and compound multipliers.",
     "C10": " Also: histories with reconfigured / replaced tokenizers (reported as notes), calls made from deep inside the caller's recursion, ValueError-type failures inside open groups repeated 130 times, brand-new parsers asked after the history.",
-    "C11": " Also: one long-lived reconfigured Tokenizer per process answers every question too, both construction call forms, function tables with new name lengths, all ASCII control characters, CR LF pairs.",
+    "C11": " Also: one long-lived reconfigured Tokenizer per process answers every question too, both construction call forms, function tables with new name lengths, all ASCII control characters, CR LF pairs. The long-lived tokenizer is used once with its constructor-time settings before its first reconfiguration.",
     "C12": " Also: ParserObject.tla models the tokenizer configuration (Configure, stale entries, ClearDropsTokens), Token objects inside the lists (CopyTokens, ClientMutate) and calls that run out of stack (DeepCall); five necessity variants are refuted by TLC; histories edit the token objects of the lists the parser hands out; reconfiguration histories are reported as notes.",
     "C13": " Also: independence observed through str, MathML, terminal text, classes, change marks, layout coordinates and r_index after public-API mutations and in-place edits of the classes list.",
-    "C14": " Also: start depth / data parameters, stop signals that are equal but not identical, odd visitor answers, raising visitors (pruning visitors as notes), look-ups repeated after in-place edits (rotate, re-attach with the optional flag, swapped operands, new root), falsy ids.",
+    "C14": " Also: start depth / data parameters, stop signals that are equal but not identical, odd visitor answers, raising visitors (pruning visitors as notes), look-ups repeated after in-place edits (rotate, re-attach with the optional flag, swapped operands, new root), falsy ids. Edit sessions include an operand replaced through the setter (the replaced node keeps pointing at its former parent: it has no sibling).",
+    "C15": " Also: every (first, second) pair of rotations on all shapes up to 4 / 5 nodes - the second rotation starts from a tree only a rotation produces (a one-operand node holding its operand on the other side).",
     "C16": " Also: factor tables of big squares / k(k+1) up to 2^31, integers of 401 digits as exponents and coefficients in every term predicate.",
-    "C17": " Also: hold-outs outside the pool, exclusions as instances of the exported subclass, keyword and positional call forms.",
+    "C17": " Also: hold-outs outside the pool, exclusions as instances of the exported subclass, keyword and positional call forms. 1,260 / 18,000 additional seeds for the optional_var settings in the non-pretty number mode.",
     "C18": " Also: a fixed family of 2,500 (12,000) shapes with 11..48 nodes judged against the listed signatures, layout called on subtrees of a larger tree, one layout object reused with a decoy tree between measurements, rows exact for units that are not exactly representable.",
 }
 for _pid, _add in ADDENDA.items():
